@@ -615,7 +615,35 @@ def rule_map(ctx):
         ty_is = [c for x in F.with_closures(b) for c in x.calls.values() if c.name == 'is']
         pit = [c for c in ty_is if 'Box<' in (c.self_ty or '')]
         R.ob('M3-unboxed', b.path, not pit and bool(ty_is), 'the type test looks at the value inside the box' if not pit and ty_is else 'type test missing or applied to the Box itself', ctx.where(b), props=P)
-    R.floor('M3', 'ensure-inserted helper', len(ens), 1, props=P)
+    # the same helper without the entry API: `if !(map.get(id) is Some(v) && v.is::<V>()) { map.insert(id, default) }; map.get_mut(id)`
+    ens2 = [b for b in inh if b not in ens and any(c.qname == 'std::collections::HashMap::insert' for c in b.calls.values())
+            and any(c.name == 'is' and 'Any' in c.qname for x in F.with_closures(b) for c in x.calls.values())]
+    from rules_protocol import guard_edges_on_call as _geoc
+    for b in ens2:
+        vty = b.generics[1] if len(b.generics) > 1 else None
+        inf = ctx.infeasible(b)
+        ins = [c for c in b.calls.values() if c.qname == 'std::collections::HashMap::insert' and not b.blocks[c.bb]['cleanup']]
+        iss = [c for c in b.calls.values() if c.name == 'is' and 'Any' in c.qname and c.gargs and c.gargs[-1] == vty]
+        gets = [c for c in b.calls.values() if c.qname == 'std::collections::HashMap::get']
+        is_false = {n for c in iss for n, g in _geoc(b, c) if g.truth() is False}
+        get_none = {n for c in gets for n, g in _geoc(b, c) if g.variants() == frozenset(['None'])}
+        ib = {c.bb for c in ins}
+        seen = b.reach([0], avoid=ctx.both(inf, lambda n: n in is_false or n in get_none))
+        good = bool(ins) and bool(iss) and bool(is_false) and not any(x in seen for x in ib)
+        R.ob('M3-replace', b.path, good, 'an existing state value is replaced only if it is not of the requested type' if good
+             else 'the stored value can be replaced although it has the requested type (or the type test could not be related to the insertion)', ctx.where(b), props=P)
+
+        def always_inserts(edges):
+            for e in edges:
+                s_ = b.reach([e], avoid=ctx.both(inf, lambda n: n in ib))
+                if any(r in s_ for r in b.returns()):
+                    return False
+            return bool(edges)
+        R.ob('M3-vacant', b.path, always_inserts(get_none), 'a missing state value is created' if always_inserts(get_none) else 'a missing state value is not created on some path', ctx.where(b), props=P)
+        R.ob('M3-wrong-type', b.path, always_inserts(is_false), 'a stored value of another type is replaced' if always_inserts(is_false) else 'a stored value of another type can be handed out', ctx.where(b), props=P)
+        pit = [c for c in iss if 'Box<' in (c.self_ty or '')]
+        R.ob('M3-unboxed', b.path, not pit and bool(iss), 'the type test looks at the value inside the box' if not pit and iss else 'type test missing or applied to the Box itself', ctx.where(b), props=P)
+    R.floor('M3', 'ensure-inserted helper', len(ens) + len(ens2), 1, props=P)
     # M4 / M5
     rw = [b for b in F.bodies.values() if b.impl_trait == 'pie::Resource' and b.impl_self == 'K' and b.crate == 'pie' and b.kind == 'AssocFn' and 'resource::map' in b.id]
     R.floor('M4', 'MapKey resource read/write', len(rw), 2, props=P)
